@@ -40,7 +40,7 @@ type c18Http struct {
 	readOK bool
 	// what the client's response-body transformer does with this body: "-" none installed,
 	// "k" accepts (strips the '#' the script peer prepends), "n<i>" fails with sentinel i and a
-	// nil body, "b<i>" fails with sentinel i and returns the raw body
+	// nil body, "b<i>" fails with sentinel i and returns the (stripped) body all the same
 	xf string
 	// derived facts handed to the model
 	custom        string // verdict of the custom checker ("-" = none installed)
@@ -510,7 +510,7 @@ func c18Run(sc *c18Scenario) *c18Obs {
 				if h.xf[0] == 'n' {
 					return nil, c18Sentinels[i]
 				}
-				return raw, c18Sentinels[i]
+				return out, c18Sentinels[i] // fails, and hands back what it made of the body
 			})
 		})
 	}
